@@ -18,6 +18,7 @@ import numpy as np
 
 import common
 import steps_gen as G
+import steps_translate
 from common import Infra, ModelErr
 
 PROP = "C11"
@@ -37,12 +38,16 @@ LEVEL_TEXT = (
     "list with each solver kind, PGM has_prox) and initial states; the memory of the Barzilai-Borwein step-size policies after "
     "every step (all histories of accepted / rejected values). The model is tied to the code by replaying random instances on the real "
     "classes: full public state (incl. step-size memory) after each of k steps and all accessors, compared with the model's "
-    "independent recomputation at 1e-8, and bit for bit on an exact-arithmetic stream of dyadic instances."
+    "independent recomputation at 1e-8, and bit for bit on an exact-arithmetic stream of dyadic instances (ADMM with the CG "
+    "and the matrix solver, LinearizedADMM, ProximalADMM, PDHG, PGM; 1-d, 2-d and block variables). Generated obligations "
+    "(ast translator, every run): constructor defaults, normalised statements of every transcribed method and of the x-step "
+    "solver paths, assignment order of step()/__init__, solver-class table and the docstring parameter ranges equal the "
+    "tables pinned in Model/StepsSource.lean (C11_source_transcription links them to the model)."
 )
 LEVEL_NOTE = (
     "Trusted: Lean kernel + Mathlib (axioms propext, Classical.choice, Quot.sound); real-number idealisation (the model runs "
     "in binary64, comparison within 1e-8 relative); the transcription of the Python bodies into Model/Steps.lean is checked "
-    "only by the correspondence run (sizes 2-6, k<=5 quick / <=50 thorough); proximal maps, operators, CG / LU solvers and "
+    "by the correspondence run (sizes 2-6, k<=5 quick / <=50 thorough) and, textually, by the generated obligations; proximal maps, operators, CG / LU solvers and "
     "JAX autodiff are parameters of the theorems (their own correctness is C02/C10/C14/C07), the step-size policies are C16."
 )
 PROP_MODULES = ["Scico.Props.C11"]
@@ -55,6 +60,8 @@ FILES = [
     "scico/optimize/_primaldual.py",
     "scico/optimize/_pgm.py",
     "scico/optimize/_pgmaux.py",
+    "scico/optimize/_admmaux.py",
+    "scico/functional/_functional.py",
 ]
 RULE = (
     "one case = one generated problem instance (recipe) of one optimiser class run for k steps with all accessors; "
@@ -269,7 +276,10 @@ def oracle_step(case):
     doc = documented_step(b)
     b.solver.step()
     post = b.read()
-    fld = G.states_close(doc, post, rtol=RTOL)
+    # exact-arithmetic recipes (dyadic data, power-of-two parameters): the documented equations evaluate without rounding in any
+    # order of operations, so the comparison is bit for bit there
+    exact = bool(case["recipe"].get("exact"))
+    fld = G.states_close(doc, post, rtol=0.0 if exact else RTOL, skip=("fpr",) if exact else ())
     if fld is None:
         return None
     return {"class": type(b.solver).__name__, "recipe": case["recipe"], "pre_state": pre_now, "field": fld,
@@ -521,6 +531,9 @@ def run_case(ctx, model, recipe, k, rng, accessors=True, tag="gen"):
     exact = bool(recipe.get("exact"))
     if exact:
         rt = 0.0  # exact-arithmetic stream: bit-for-bit
+        xs_ = recipe["xshape"]
+        ctx.count(f"exact-stream:{a}:" + ("block" if G.is_block(xs_) else f"{len(xs_)}d")
+                  + (":" + recipe["solver"] + ("+loss" if recipe.get("f") else "") if a == "admm" else ""))
     # constructor state against the model's init
     init = b.read()
     kw = {}
@@ -614,6 +627,19 @@ def run_case(ctx, model, recipe, k, rng, accessors=True, tag="gen"):
         ctx.count("padmm.B:" + ("default" if recipe["B"] is None else "given"))
         ctx.count("padmm.c:" + ("default" if recipe["c"] is None else ("scalar" if isinstance(recipe["c"], float) else "array")))
     return moved
+
+
+def generate(ctx):
+    """translator (harness/steps_translate.py): tables read with `ast` from the working tree, one generated module whose
+    `decide` obligations compare them with Model/StepsSource.lean"""
+    steps_translate.generate()
+    return [("Scico.Generated.StepsTables",
+             "constructor parameters with defaults of ADMM / LinearizedADMM / ProximalADMM(Base) / NonLinearPADMM / PDHG / PGM / AcceleratedPGM, "
+             "normalised statement lists of every transcribed method (step, __init__, accessors, residuals, z_init / u_init, "
+             "_working_vars_finite, _itstat_extra_fields, Functional.conj_prox, LinearSubproblemSolver.compute_rhs / solve), order of the "
+             "self-attribute assignments of step() / __init__, the parameter constraints printed in the class docstrings, and the "
+             "sub-problem solver classes (base, reduction over C_list, defaults) equal the tables the model transcribes "
+             "(Model/StepsSource.lean)")]
 
 
 def corpus_cases():
@@ -758,10 +784,75 @@ def findings(ctx, model):
     ctx.known_finding("ladmm-dual-residual-doc", still, f"returned {got:.6g}, docstring formula {printed:.6g}")
 
 
+def oracle_defaults(rng):
+    """constructor defaults (pinned in Model/StepsSource.lean: alpha = 1.0, B = None, c = None, x0 / z0 / u0 = None,
+    fast_dual_residual = True): an optimiser built with the optional parameters OMITTED must run exactly like one built with
+    these values passed explicitly.  Implementation only; returns a failing-input dict or None."""
+    from scico.optimize import ADMM, PDHG, LinearizedADMM, ProximalADMM
+    from scico.optimize.admm import LinearSubproblemSolver
+
+    for alg in ("admm", "pdhg", "padmm", "ladmm"):
+        r = G.gen_exact(rng, alg)
+        r.pop("exact", None)
+        for k in ("x0", "z0", "u0"):
+            if k in r:
+                r[k] = None
+        if alg in ("admm", "pdhg"):
+            r["alpha"] = 1.0
+        if alg == "admm":
+            r["solver"] = "linear"
+        if alg == "padmm":
+            r["B"], r["c"], r["fast"] = None, None, True
+            r.pop("zshape", None)
+        b = G.Built(r)
+        s = b.solver
+        if alg == "admm":
+            o = ADMM(f=s.f, g_list=s.g_list, C_list=s.C_list, rho_list=s.rho_list,
+                     subproblem_solver=LinearSubproblemSolver(cg_kwargs={"tol": 1e-15, "maxiter": 400}), maxiter=1)
+            explicit = {"alpha": 1.0, "x0": None}
+        elif alg == "pdhg":
+            o = PDHG(f=s.f, g=s.g, C=s.C, tau=s.tau, sigma=s.sigma, maxiter=1)
+            explicit = {"alpha": 1.0, "x0": None, "z0": None}
+        elif alg == "padmm":
+            o = ProximalADMM(f=s.f, g=s.g, A=s.A, rho=s.rho, mu=s.mu, nu=s.nu, maxiter=1)
+            explicit = {"B": None, "c": None, "x0": None, "z0": None, "u0": None, "fast_dual_residual": True}
+        else:
+            o = LinearizedADMM(f=s.f, g=s.g, C=s.C, mu=s.mu, nu=s.nu, maxiter=1)
+            explicit = {"x0": None}
+        # a non-trivial start (the zero start is a fixed point of many instances): same dyadic state written into both
+        st = b.read()
+        for fld in ("x",):
+            v = np.asarray(st[fld], dtype=np.float64)
+            st[fld] = (v + (rng.integers(-8, 9, size=v.shape) / 4.0)).tolist()
+        b.write(st)
+        bo = G.Built.__new__(G.Built)
+        bo.__dict__.update(b.__dict__)
+        bo.solver = o
+        bo.write(st)
+        for k in range(3):
+            s.step()
+            o.step()
+            a, c = b.read(), bo.read()
+            fld = G.states_close(a, c, rtol=0.0)
+            dr = (float(s.norm_dual_residual()), float(o.norm_dual_residual()))
+            if fld is None and dr[0] != dr[1] and not (np.isnan(dr[0]) and np.isnan(dr[1])):
+                fld = "norm_dual_residual()"
+            if fld is not None:
+                return {"class": type(s).__name__, "recipe": r, "optional_parameters_omitted": sorted(explicit),
+                        "pinned_defaults_passed_explicitly": {k_: repr(v_) for k_, v_ in explicit.items()}, "step": k + 1, "field": fld,
+                        "with_explicit_defaults": a.get(fld, dr[0]), "with_parameters_omitted": c.get(fld, dr[1])}
+    return None
+
+
 def search(ctx, model, why):
     """oracle search on the implementation alone: documented equations vs step() on fresh random instances"""
     common.setup_scico()
     rng = np.random.Generator(np.random.PCG64(ctx.seed + 7919))
+    for it in range(ctx.n(6, 20) if why is not None else ctx.n(0, 10)):
+        r = oracle_defaults(rng)
+        ctx.count("oracle-search-defaults")
+        if r is not None:
+            return r
     n = ctx.n(5, 60)
     for it in range(n):
         for alg in G.ALGS:
